@@ -246,6 +246,11 @@ def check_C04(tier):
                    n + 1 - q, quick=quick, own=own)
     enc_gen_replay(rep, "ring_marks", ["C", "/C", "\\C", "=C", "/1", "\\1", "1", "=1", "F", "(", ")", "/2", "2"], "default",
                    n, quick=quick, own=own)
+    rng = random.Random(seed() * 1019 + 4)
+    stereo_pool = [t for t in ENC_POOL if any(c in t for c in "@/\\")] + ["C", "N", "(", ")", "1", "2", "=C", "F", "3", "O"]
+    for k in range(1 if quick else 4):
+        alpha = sorted(set(rng.sample(stereo_pool, 12)))
+        enc_gen_replay(rep, "stereo_pool%d" % k, alpha, "default", n - q, quick=quick, own=own)
     corpus_trace(rep, "stereo", quick, own, [relaxed_table()], per_file=(40 if quick else 800),
                  variants=(3 if quick else 6), flt=has_stereo)
     rep.exhaustive = True
@@ -297,6 +302,11 @@ def check_C05(tier):
                            "c1ccc2c(c1)c1nc3nc(nc4[nH]c(nc5nc(nc2[nH]1)c1ccccc15)c1ccccc41)c1ccccc13"]:
         cages.append(s)
         cages += gs.respell(s, rng, 25 if quick else 400)
+    aro_pool = [t for t in ENC_POOL if t[-1:].islower() or (t.startswith("[") and t[1:2].islower()) or t in
+                ("(", ")", "1", "2", "3", "-1", ":1", "=1", "=O", "C", "N", "-c", ":c", "=c", "-n")]
+    for k in range(1 if quick else 4):
+        alpha = sorted(set(rng.sample(aro_pool, min(12, len(aro_pool)))) | {"c", "1"})
+        enc_gen_replay(rep, "aro_pool%d" % k, alpha, "default", n - q, quick=quick, own=own)
     # every small sigma skeleton of aromatic carbons (max degree 3), in several atom orders: odd rings, fused
     # and bridged small systems where augmenting paths run through contracted odd cycles
     graphs = gs.small_graphs(rng, 9 if quick else 13, 25 if quick else 300)
@@ -524,6 +534,10 @@ def check_C10(tier):
     enc_gen_replay(rep, "hcaps_default", ENC["hcaps"], "default", n - 2, quick=quick, own=own, invariants=inv)
     enc_gen_replay(rep, "ring_marks", ["C", "/C", "\\C", "=C", "/1", "\\1", "1", "=1", "F", "(", ")", "/2", "2"], "default",
                    n, quick=quick, own=own, invariants=inv)
+    rng = random.Random(seed() * 1021 + 10)
+    for k in range(1 if quick else 4):
+        alpha = sorted(set(rng.sample(ENC_POOL, 11)) | {"C", "(", ")"})
+        enc_gen_replay(rep, "pool%d" % k, alpha, rng.choice(["default", "octet_rule", "hypervalent"]), 4, quick=quick, own=own, invariants=inv)
     enc_gen_replay(rep, "ringbranch_default", ENC["ringbranch"], "default", n + 2, quick=quick, own=own, invariants=inv)
     enc_gen_replay(rep, "stereo_default", ENC["stereo"], "default", n - 1, quick=quick, own=own, invariants=inv)
     # equivalent spellings of an atom give the same symbol
@@ -578,6 +592,8 @@ def index_encoder_side(rep, quick):
     ring / end the branch at the right atom."""
     r, tab, big = index_table_from_spec()
     rep.add_tlc(r, "IndexSymbols table (TLC)")
+    for k_ in range(4):          # other API calls first: the index tables are module-level data
+        de.api_noise(k_)
     # sampled larger n: the conversion itself has no three-symbol limit (the ring symbol then reads [Ring4] ...)
     for n_, want in zip(BIG_INDEX, big):
         if quick and n_ > 13000:
